@@ -73,7 +73,8 @@ From Turn Require Import Common RelayCheck RelayProps C16Check C04TcpCheck TcpIs
    a ConnectionBind succeeds only for an announced id, once, within 30 s of the announcement, by the user of the
    allocation it was announced to; bytes are delivered only through bound pairs, unmodified, to the other side; the
    owner's bind of an open connection within its 30 s succeeds; an unbound connection is gone after 30 s; the manager is
-   never wedged; 446 only for a peer this allocation already has) holds on EVERY trace of Model/TcpRelay.v whose
+   never wedged; 446 only for a peer this allocation already has; when one side of a bound pair closes the server closes
+   the other side - "until either side closes") holds on EVERY trace of Model/TcpRelay.v whose
    connection ids are fresh - cids_fresh: the ids the environment supplies to Connect / inbound-connection events are
    pairwise different (the server draws 32 random bits and retries while the id belongs to a live connection; an id of a
    connection that is gone coming back is the event excluded here) - and the runner accepts that trace. *)
